@@ -219,9 +219,62 @@ def task_reserved(args):
     return res
 
 
+def task_rebinding(args):
+    """every pairing of the two binding statements (let, constraint) on one name, in every scope a statement list exists in,
+    adjacent and with uses in between: must fail; the same names in different scopes: must build"""
+    res = core.Result()
+    probe = core.Probe()
+    binders = {"let": "let %s = 1;", "let-str": "let %s = \"s\";", "constraint": "constraint %s = 1 | 2;", "constraint-range": "constraint %s = in 1..5;"}
+    names = ["x", "limit", "a_b", "x-1", "Port"]
+    cases = []
+    for n in names:
+        for k1, b1 in binders.items():
+            for k2, b2 in binders.items():
+                first, second = b1 % n, b2 % n
+                lab = "%s-then-%s" % (k1, k2)
+                cases.append(("fail", lab + ":adjacent", first + "\n" + second + "\n"))
+                cases.append(("fail", lab + ":apart", first + "\nlet other = 2;\nlet t = {k = other};\n" + second + "\n"))
+                if k1.startswith("let"):
+                    cases.append(("fail", lab + ":used-between", first + "\nlet seen = %s;\n" % n + second + "\nlet after = seen;\n"))
+                cases.append(("fail", lab + ":in-module", "let m = module {} => { %s %s };\nlet r = m{};\n" % (first, second)))
+                cases.append(("fail", lab + ":in-module-apart", "let m = module {p = 1} => { %s let q = mod.p; %s };\nlet r = m{};\n" % (first, second)))
+                # different scopes: not a rebinding
+                cases.append(("ok", lab + ":file-then-module", first + "\nlet m = module {} => { %s };\nlet r = m{};\n" % second))
+                cases.append(("ok", lab + ":module-then-file", "let m = module {} => { %s };\nlet r = m{};\n" % first + second + "\n"))
+                cases.append(("ok", lab + ":two-modules", "let m1 = module {} => { %s };\nlet m2 = module {} => { %s };\nlet r1 = m1{};\nlet r2 = m2{};\n" % (first, second)))
+        cases.append(("ok", "let-then-constraint:distinct-names", "let %s = 1;\nconstraint %s2 = 1 | 2;\nlet v :: %s2 = %s;\n" % (n, n, n, n)))
+    import tempfile
+    d = os.path.join(core.SCRATCH, "c10r-%d" % os.getpid())
+    os.makedirs(d, exist_ok=True)
+    for i, (want, label, text) in enumerate(cases):
+        for mode in ("eval", "build"):
+            if mode == "eval":
+                st, b = run_text(probe, text, fresh=False)
+            else:
+                path = os.path.join(d, "r%d.ucg" % i)
+                with open(path, "w") as f:
+                    f.write(text)
+                rr = probe.safe_call({"op": "build", "path": path, "strict": True, "reuse_max": 100}, timeout=20.0)
+                os.remove(path)
+                st = "ok" if rr.get("ok") else ("fail" if "err" in rr else "crash")
+            res.case((mode, text))
+            res.count("rebinding:" + label.split(":")[1] + ":" + mode)
+            if st not in ("ok", "fail"):
+                res.count("rebinding-" + st)
+            elif want == "fail" and st == "ok":
+                res.violation(["rebinding-accepted", label.split(":")[0], label.split(":")[1], mode], {"text": text, "mode": mode, "want": want}, {})
+            elif want == "ok" and st == "fail":
+                res.violation(["separate-scopes-rejected", label.split(":")[0], label.split(":")[1], mode], {"text": text, "mode": mode, "want": want}, {})
+    import shutil
+    shutil.rmtree(d, ignore_errors=True)
+    res.sample({"rebinding_case": cases[3][2]})
+    probe.stop()
+    return res
+
+
 def dispatch(task):
     kind, args = task
-    return {"prefix": task_prefix, "scoping": task_scoping, "reserved": task_reserved}[kind](args)
+    return {"prefix": task_prefix, "scoping": task_scoping, "reserved": task_reserved, "rebinding": task_rebinding}[kind](args)
 
 
 def run(tier, seed, t0):
@@ -231,7 +284,7 @@ def run(tier, seed, t0):
     tasks = [("prefix", (seed, i, n // sh, 4 if q else 6, 8 if q else 12)) for i in range(sh)]
     ns = 64 if q else 2000
     tasks += [("scoping", (seed, i, max(1, ns // 16))) for i in range(16)]
-    tasks += [("reserved", None)]
+    tasks += [("reserved", None), ("rebinding", None)]
     res = core.run_parallel(dispatch, tasks)
     return core.finish("C10", tier, seed, res, RULE, t0, replay_known=replay_known,
                        assumptions=["the reserved list is the one published in reference/_index.md",
@@ -259,6 +312,12 @@ def check_witness(w):
             if st_k == "ok" and st_n == "ok":
                 if any(n not in b_n or not refint.same(v, b_n[n]) for n, v in b_k.items()):
                     res.violation(["binding-changes-value"], w, {})
+        elif "want" in w:
+            st, b = run_text(probe, w["text"], True)
+            if w["want"] == "fail" and st == "ok":
+                res.violation(["rebinding-accepted"], w, {})
+            if w["want"] == "ok" and st == "fail":
+                res.violation(["separate-scopes-rejected"], w, {})
         else:
             st, b = run_text(probe, w["text"], True)
             if st == "ok":
